@@ -48,6 +48,11 @@ pub mod scheduler;
 pub mod util;
 pub mod vm;
 
+#[cfg(any(kani, mmtk_verif))]
+pub mod verif_contracts;
+#[cfg(any(kani, mmtk_verif))]
+pub mod verif_hooks;
+
 pub use crate::plan::{
     AllocationSemantics, BarrierSelector, Mutator, MutatorContext, ObjectQueue, Plan,
 };
